@@ -23,6 +23,7 @@
 (*              "nullopt" (an optional), "threw", "ok" (void), "true" /    *)
 (*              "false"                                                    *)
 (*   w.err      "" or the undefined behaviour the code would run into      *)
+(*   w.busy     ids in use when the current call began (bookkeeping only)  *)
 (* shared_ptr ownership is exact reference counting without cycles, so a   *)
 (* storage dies in the call that removes its last owner (Collect).         *)
 (*                                                                         *)
@@ -77,13 +78,15 @@ DeadMesh == [alive |-> FALSE, ty |-> "", kern |-> Kn!Empty, trk |-> {}, pers |->
 
 EmptyWorld(nm, ns, nh) ==
   [mesh |-> [m \in 1 .. nm |-> DeadMesh], sto |-> [i \in 1 .. ns |-> DeadSto], slot |-> [h \in 1 .. nh |-> 0],
-   ret |-> "ok", err |-> ""]
+   ret |-> "ok", err |-> "", busy |-> {}]
 
 Meshes(w)   == DOMAIN w.mesh
 Alive(w)    == {m \in Meshes(w) : w.mesh[m].alive}
 LiveIds(w)  == {i \in DOMAIN w.sto : w.sto[i].live}
 FreeIds(w)  == DOMAIN w.sto \ LiveIds(w)
-NewId(w)    == Min(FreeIds(w))
+(* an id that was in use when the current call began is not handed out      *)
+(* again inside that call (w.busy), so "this storage is new" is visible     *)
+NewId(w)    == Min(FreeIds(w) \ w.busy)
 Bound(w)    == {h \in DOMAIN w.slot : w.slot[h] # 0}
 
 NK(kern, k) == CASE k = "V" -> kern.nv [] k = "HE" -> 2 * Len(kern.edges) [] k = "M" -> 1
@@ -125,12 +128,16 @@ Request(w, m, h, k, t, s, d) ==
   IF f # 0 THEN SetRet(Bind(w, h, f), "ptr")
   ELSE LET i == NewId(w) IN SetRet(Bind(AddSto(w, i, m, k, t, s, d, s # ""), h, i), "ptr")
 
+(* create_shared / create_persistent refuse an empty name (a shared property *)
+(* must be named; repaired behaviour, finding P1) and duplicates             *)
 CreateShared(w, m, h, k, t, s, d) ==
-  IF Find(w, m, k, t, s) # 0 THEN SetRet(w, "nullopt")
+  IF s = "" THEN SetRet(w, "threw")
+  ELSE IF Find(w, m, k, t, s) # 0 THEN SetRet(w, "nullopt")
   ELSE LET i == NewId(w) IN SetRet(Bind(AddSto(w, i, m, k, t, s, d, TRUE), h, i), "some")
 
 CreatePersistent(w, m, h, k, t, s, d) ==
-  IF Find(w, m, k, t, s) # 0 THEN SetRet(w, "nullopt")
+  IF s = "" THEN SetRet(w, "threw")
+  ELSE IF Find(w, m, k, t, s) # 0 THEN SetRet(w, "nullopt")
   ELSE LET i == NewId(w) IN
        SetRet(Bind(MarkPers(AddSto(w, i, m, k, t, s, d, TRUE), m, i, TRUE), h, i), "some")
 
@@ -160,8 +167,15 @@ SetShared(w, m, h, on) ==
   ELSE LET w1 == IF x.pers THEN MarkPers(w, m, i, FALSE) ELSE w IN
        SetRet([w1 EXCEPT !.sto[i].shared = FALSE], "ok")
 
-(* PropertyStoragePtr::set_name: forwards to the storage, no check          *)
-SetName(w, h, s) == SetRet([w EXCEPT !.sto[w.slot[h]].name = s], "ok")
+(* PropertyStoragePtr::set_name -> PropertyStorageBase::set_name (repaired  *)
+(* behaviour, finding P2): a shared property refuses the empty name and,    *)
+(* while attached, a name that another shared property of the same mesh,    *)
+(* entity kind and value type already has; anything else is renamed         *)
+SetName(w, h, s) ==
+  LET i == w.slot[h]  x == w.sto[i] IN
+  IF x.shared /\ s # x.name /\ (s = "" \/ (x.trk # 0 /\ Lookup(w, x.trk, x.kind, x.type, s) \ {i} # {}))
+  THEN SetRet(w, "threw")
+  ELSE SetRet([w EXCEPT !.sto[i].name = s], "ok")
 
 HandleCopy(w, h1, h2) == SetRet(Bind(w, h2, w.slot[h1]), "ok")
 HandleMove(w, h1, h2) == SetRet(Collect([w EXCEPT !.slot[h2] = w.slot[h1], !.slot[h1] = 0]), "ok")
@@ -212,14 +226,15 @@ WriteVal(w, h, idx, v) == SetRet([w EXCEPT !.sto[w.slot[h]].vals[idx + 1] = v], 
 SetVertex(w, m, v, p)  == SetRet([w EXCEPT !.sto[w.mesh[m].posh].vals[v + 1] = p], "ok")
 PersistPos(w, m, on)   == SetPersistentI(w, m, w.mesh[m].posh, on)
 
-(* GeometryKernel::make_prop(): *create_shared_property("ovm:position"):    *)
-(* if a shared property of that name is already registered the optional is  *)
-(* empty and dereferencing it is undefined behaviour                        *)
-UBMakeProp == "UB:make_prop dereferences an empty optional (ovm:position already registered)"
+(* GeometryKernel::make_prop(): request_property("ovm:position"): a shared    *)
+(* property of that name that is already registered - the clone of a source  *)
+(* mesh's PERSISTENT position property - is adopted, otherwise it is created *)
+(* (before the repair of finding P3 this was *create_shared_property(...),   *)
+(* an empty optional dereferenced in exactly that case)                      *)
 SetErr(w, e) == IF w.err = "" THEN [w EXCEPT !.err = e] ELSE w
 MakeProp(w, m) ==
   LET f == Find(w, m, "V", PosType, PosName) IN
-  IF f # 0 THEN SetErr(w, UBMakeProp)
+  IF f # 0 THEN Collect([w EXCEPT !.mesh[m].posh = f])
   ELSE LET i == NewId(w) IN Collect([AddSto(w, i, m, "V", PosType, PosName, 0, TRUE) EXCEPT !.mesh[m].posh = i])
 
 MeshNew(w, m, ty) ==
@@ -256,10 +271,8 @@ MeshCopy(w, dst, src) ==
 (* persistent properties; the kernel arrays are copied; position_ is        *)
 (* re-made (the old position storage loses its owner) and filled            *)
 (* GeometryKernel::operator= returns a GeometryKernel BY VALUE: a temporary *)
-(* copy of *this is constructed and destroyed (no lasting effect unless its *)
-(* make_prop() runs into the case above)                                    *)
-PosPersistent(w, m) == \E i \in w.mesh[m].pers : w.sto[i].type = PosType /\ w.sto[i].name = PosName /\ w.sto[i].shared
-ReturnByValue(w, m) == IF w.err = "" /\ PosPersistent(w, m) THEN SetErr(w, UBMakeProp) ELSE w
+(* copy of *this is constructed and destroyed, without lasting effect       *)
+ReturnByValue(w, m) == w
 MeshAssign(w, dst, src) ==
   IF dst = src THEN SetRet(ReturnByValue(w, dst), "ok")
   ELSE LET w1 == Collect(ClearAllK(w, dst))
@@ -286,7 +299,7 @@ Teardown(w, meshesFirst) == IF meshesFirst THEN DropAll(DestroyAll(w)) ELSE Dest
 KArg(c)  == KindSeq[c.l[1]]
 TArg(c)  == TypeSeq[c.l[2]]
 Apply(w0, c) ==
-  LET w == [w0 EXCEPT !.ret = "ok"] IN
+  LET w == [w0 EXCEPT !.ret = "ok", !.busy = LiveIds(w0)] IN
   CASE c.op = "request"           -> Request(w, c.a, c.b, KArg(c), TArg(c), c.s, c.l[3])
     [] c.op = "create_shared"     -> CreateShared(w, c.a, c.b, KArg(c), TArg(c), c.s, c.l[3])
     [] c.op = "create_persistent" -> CreatePersistent(w, c.a, c.b, KArg(c), TArg(c), c.s, c.l[3])
